@@ -25,6 +25,12 @@ Definition order_dependent (s : st) (e : ev) : bool :=
       || match cl s with CWaitLoop | CWantLock => true | _ => false end
       || is_pcall (proc s)
       || (negb (loop_dead s) && existsb (fun e' => (p_due (snd e') <=? now s)%Z) (pending s))
+  (* a departing forwarder and the queue's next callback both want the lock: if the callback wins
+     and then blocks on a live stalled subscriber, the departing subscriber's channel is closed
+     only later *)
+  | FwdExitLocked _ =>
+      is_pcall (proc s)
+      || (negb (loop_dead s) && existsb (fun e' => (p_due (snd e') <=? now s)%Z) (pending s))
   | Pop k =>
       match plookup k (pending s) with
       | Some p => existsb (fun e' => negb (fst e' =? k)%Z && (p_due (snd e') =? p_due p)%Z) (pending s)
@@ -63,7 +69,7 @@ Definition env_event (n : Z) (o : op) : ev :=
   match o with
   | OSub p => SubscribeCall n p
   | OBatch k => Batch k n
-  | OAdv d => Advance d
+  | OAdv d | OAdvBatch d _ => Advance d
   | ORead i => Want (Z.to_nat i)
   | OReadAll i => WantAll (Z.to_nat i)
   | OCancel i => Cancel (Z.to_nat i)
@@ -72,7 +78,7 @@ Definition env_event (n : Z) (o : op) : ev :=
 
 Definition op_ok (o : op) : bool :=
   match o with
-  | OAdv d => (0 <? d)%Z
+  | OAdv d | OAdvBatch d _ => (0 <? d)%Z
   | ORead i | OReadAll i | OCancel i => (0 <=? i)%Z
   | _ => true
   end.
@@ -103,7 +109,7 @@ Definition is_returned (c : closepc) : bool := match c with CReturned => true | 
 Definition done_events (n : Z) (o : op) (close_id : option Z) (s0 s_env s1 : st) : list (Z * oev) :=
   let subs_done := filter (fun id => negb (existsb (fun e => (fst e =? id)%Z) (pend_subs s1)))
                           (map fst (pend_subs s_env)) in
-  let batch_done := match o with OBatch _ => [n] | _ => [] end in
+  let batch_done := match o with OBatch _ | OAdvBatch _ _ => [n] | _ => [] end in
   let close_done := match close_id with
                     | Some c => if is_returned (cl s1) && negb (is_returned (cl s0)) then [c] else []
                     | None => [] end in
@@ -118,13 +124,34 @@ Record drv := mkDrv {
   d_obs : list (Z * oev)
 }.
 
+(* OAdvBatch: the advance and the Batch call with NO internal step in between *)
+Definition env_step (vr : variant) (iv : Z) (s : st) (n : Z) (o : op) : option st :=
+  match o with
+  | OAdvBatch d k => match step vr iv s (Advance d) with
+                     | Some s1 => step vr iv s1 (Batch k n)
+                     | None => None
+                     end
+  | _ => step vr iv s (env_event n o)
+  end.
+
+(* ... which on the implementation races the timer of a pending value of that key that the advance
+   makes due: popped first (delivered) or replaced first — the model takes "replaced" *)
+Definition races_timer (s0 : st) (o : op) : bool :=
+  match o with
+  | OAdvBatch d k => match plookup k (pending s0) with
+                     | Some p => (p_due p <=? now s0 + d)%Z
+                     | None => false
+                     end
+  | _ => false
+  end.
+
 Definition drive_step (vr : variant) (iv : Z) (d : drv) (n : Z) (o : op) : drv :=
   let s0 := d_st d in
-  match (if op_ok o then step vr iv s0 (env_event n o) else None) with
+  match (if op_ok o then env_step vr iv s0 n o else None) with
   | None => mkDrv s0 (d_close d) (d_amb d) true (d_obs d)
   | Some s_env =>
       let close_id := match o with OClose => Some n | _ => d_close d end in
-      let '(s1, amb) := quiesce_amb (measure s_env) vr iv s_env (d_amb d) false in
+      let '(s1, amb) := quiesce_amb (measure s_env) vr iv s_env (d_amb d || races_timer s0 o) false in
       mkDrv s1 close_id amb (d_bad d)
             (d_obs d ++ sub_events n (subs s0) (subs s1) ++ done_events n o close_id s0 s_env s1)
   end.
